@@ -222,32 +222,7 @@ def run(p: Program, rep: Report, tier: str) -> None:
             rep.violation("R13.3", construct(iri, r), where(iri, r), "iri_to_uri does not return urllib.parse.quote(iri, ...)")
     if not rets:
         rep.undecide("R13.3", "iri_to_uri has no return")
-    for side in ("wsgi", "asgi"):
-        rc = p.cls(f"baize.{side}.responses:RedirectResponse")
-        init = p.find_method(rc, "__init__")
-        rep.analysed(init.fq)
-        paths, col, it = run_paths(p, init, rc)
-        rep.cfg_paths += len(paths)
-        found = False
-        for pa in paths:
-            if pa.exit != "return":
-                continue
-            locs = [e for e in pa.events if e.kind == "store" and e.a[0] == "sub" and e.a[2][0] == "const" and str(e.a[2][1]).lower() == "location"]
-            if not locs:
-                rep.violation("R13.3", construct(init, text="no location"), where(init), f"{side} RedirectResponse does not set the location header on a normal path")
-                continue
-            for e in locs:
-                v = e.b
-                node, f = col.nodes[e.tag]
-                if e.a[1] != ("attr", ("param", "self"), "headers"):
-                    rep.violation("R13.3", construct(init, node), where(init, node), "location is not written through the checked header mapping")
-                elif v[0] == "call" and callee_is(v[1], "iri_to_uri") and len(v[2]) == 1 and _derives_from(v[2][0], ("param", "url")):
-                    found = True
-                    rep.ok("R13.3", f"{side}: location = {show(v)}")
-                else:
-                    rep.violation("R13.3", construct(init, node), where(init, node), f"{side}: redirect target reaches the Location header without iri_to_uri (got {show(v)})")
-        if not found:
-            rep.undecide("R13.3", f"{side}: no location store found")
+    redirect_location_provenance(p, rep, "R13.3")
     rep.require_instances("R13.3", 3)
 
     # ------------------------------------------------------------------ R13.4
@@ -299,3 +274,34 @@ def _derives_from(v, leaf) -> bool:
     from ..flow import contains
 
     return contains(v, leaf)
+
+
+def redirect_location_provenance(p: Program, rep: Report, rule: str) -> None:
+    """On every path of both RedirectResponse constructors the Location header is iri_to_uri(<the url argument>) written
+    through the checked header mapping (C13 R13.3; reused by C05: header values are ASCII/Latin-1 text)."""
+    for side in ("wsgi", "asgi"):
+        rc = p.cls(f"baize.{side}.responses:RedirectResponse")
+        init = p.find_method(rc, "__init__")
+        rep.analysed(init.fq)
+        paths, col, it = run_paths(p, init, rc)
+        rep.cfg_paths += len(paths)
+        found = False
+        for pa in paths:
+            if pa.exit != "return":
+                continue
+            locs = [e for e in pa.events if e.kind == "store" and e.a[0] == "sub" and e.a[2][0] == "const" and str(e.a[2][1]).lower() == "location"]
+            if not locs:
+                rep.violation(rule, construct(init, text="no location"), where(init), f"{side} RedirectResponse does not set the location header on a normal path")
+                continue
+            for e in locs:
+                v = e.b
+                node, f = col.nodes[e.tag]
+                if e.a[1] != ("attr", ("param", "self"), "headers"):
+                    rep.violation(rule, construct(init, node), where(init, node), "location is not written through the checked header mapping")
+                elif v[0] == "call" and callee_is(v[1], "iri_to_uri") and len(v[2]) == 1 and _derives_from(v[2][0], ("param", "url")):
+                    found = True
+                    rep.ok(rule, f"{side}: location = {show(v)}")
+                else:
+                    rep.violation(rule, construct(init, node), where(init, node), f"{side}: redirect target reaches the Location header without iri_to_uri (got {show(v)})")
+        if not found:
+            rep.undecide(rule, f"{side}: no location store found")
